@@ -2,28 +2,28 @@ META = {}
 NOT_APPLICABLE_REASON = {}
 
 META["C15"] = {
-    "text": "Bounded symbolic model checking of the real scanner: from an arbitrary scanner state satisfying the stated invariant over a symbolic input suffix, one Scan() re-establishes the invariant, makes progress and returns a position inside the input, for every rune assignment within the bound (solver-decided per path). The per-token step lemma covers every position of longer inputs up to the rune bound per token. P2: the real ParseSrc on every source of <= 2|3 symbolic runes returns a tree or a *parser.Error positioned inside the input, never panics. P3: parsing writes no pre-existing object (write barrier) and the same text gives the same tree. P4a: relational scanner lemma - the same suffix behind any of 5 prefixes yields the same token with the line shifted by the prefix's line count and the column unchanged. P4b: for all ordered pairs of 31 snippets the concatenation parses to the concatenated statement lists with positions shifted.",
+    "text": "Bounded symbolic model checking of the real scanner: from an arbitrary scanner state satisfying the stated invariant over a symbolic input suffix, one Scan() re-establishes the invariant, makes progress and returns a position inside the input, for every rune assignment within the bound (solver-decided per path). The per-token step lemma covers every position of longer inputs up to the rune bound per token. P2: the real ParseSrc on every source of <= 2|3 symbolic runes returns a tree or a *parser.Error positioned inside the input, never panics. P3: parsing writes no pre-existing object (write barrier) and the same text gives the same tree. P4a: relational scanner lemma - the same suffix behind any of 5 prefixes yields the same token with the line shifted by the prefix's line count and the column unchanged. P4b: for all ordered pairs of 31 snippets the concatenation parses to the concatenated statement lists with positions shifted. Added: concatenation with texts made of a stem (every keyword of the scanner's own table, operator / literal / comment openers) followed by symbolic runes.",
     "design_ref": "DESIGN.md §5 C15",
     "note": "Trusted: go/ssa translation, symgo instruction semantics, z3 5.1.0. Symbolic runes are ASCII; bound = runes per scan step (quick 4, thorough 6). ParseSrc totality on whole inputs and compositionality at parser level are claimed only where the evidence lists their harnesses.",
     "technique": "symbolic execution of go/ssa + SMT (z3), inductive step lemma, native replay",
 }
 
 META["C17"] = {
-    "text": "Step lemma over every AST node kind (table derived from go/types over the current ast package at check time): the real astutil.Walk, executed symbolically on a node of each kind whose every child field holds distinct leaves, returns nil, presents the node before its children and every child exactly once; with a callback failing at a symbolic call index Walk returns that error and stops. Induction on the tree gives completeness for every parsed program.",
+    "text": "Step lemma over every AST node kind (table derived from go/types over the current ast package at check time): the real astutil.Walk, executed symbolically on a node of each kind whose every child field holds distinct leaves, returns nil, presents the node before its children and every child exactly once; with a callback failing at a symbolic call index Walk returns that error and stops. Induction on the tree gives completeness for every parsed program. Added: every ordered pair parent kind x child kind (three levels, operators inside the OpExpr the parser builds), which checks the independence assumption of the step lemma itself.",
     "design_ref": "DESIGN.md §5 C17",
     "note": "Node kinds and list lengths (0..2) are enumerated by forking; the early-stop index is solver-decided. Trusted: go/ssa, symgo semantics, the induction argument.",
     "technique": "symbolic execution of go/ssa + SMT (z3), per-node-kind step lemma, native replay",
 }
 
 META["C12"] = {
-    "text": "Differential inductive step: from an arbitrary tree of <=3 scopes (any subset of a name pool bound to symbolic int64 values or modules, maps possibly nil, optional external lookup) one call of each exported Env method is executed symbolically on the real env package and on a 60-line reference chain-of-dictionaries model; result, error-ness and the full observable state of every scope must agree, failures must change nothing and nothing may panic. Copy/DeepCopy independence is checked with a further arbitrary mutation on either side.",
+    "text": "Differential inductive step: from an arbitrary tree of <=3 scopes (any subset of a name pool bound to symbolic int64 values or modules, maps possibly nil, optional external lookup) one call of each exported Env method is executed symbolically on the real env package and on a 60-line reference chain-of-dictionaries model; result, error-ness and the full observable state of every scope must agree, failures must change nothing and nothing may panic. Copy/DeepCopy independence is checked with a further arbitrary mutation on either side. Added: copies of scopes whose bindings are settable cells (the nil binding, DefineValue of an addressable value) stay independent under a later Set / Define / Delete on either side.",
     "design_ref": "DESIGN.md §5 C12",
     "note": "One step from an arbitrary well-formed state covers histories of any length within the name pool and depth bound; state shapes, table contents, operation, target and names are enumerated by forking (payloads symbolic). Trusted: go/ssa, symgo semantics incl. its reflect and RWMutex models.",
     "technique": "symbolic execution of go/ssa + SMT (z3), differential step lemma against a reference model, native replay",
 }
 
 META["C13"] = {
-    "text": "D1: a lock monitor on the symbolic execution of every exported Env method shows every read of values/types happens under rwMutex (read or write mode), every write under the write lock, locks are released on all paths and never re-acquired. D2: two goroutines with one symbolic operation each on a shared scope are explored under all interleavings at lock-operation granularity (bounded context switches); results and final state must equal one of the two sequential orders on a reference model (solver-decided over the symbolic payloads).",
+    "text": "D1: a lock monitor on the symbolic execution of every exported Env method shows every read of values/types happens under rwMutex (read or write mode), every write under the write lock, locks are released on all paths and never re-acquired. D2: two goroutines with one symbolic operation each on a shared scope are explored under all interleavings at lock-operation granularity (bounded context switches); results and final state must equal one of the two sequential orders on a reference model (solver-decided over the symbolic payloads). Added: the external-lookup field belongs to the guarded set; a second read lock by the holder of a read lock counts as a self-deadlock (sync.RWMutex forbids it).",
     "design_ref": "DESIGN.md §5 C13",
     "note": "The race-detector-under-stress half of the property is not applicable to this technique (Go runtime and memory model are not encoded); lock discipline => race freedom is the trusted step. D1 candidates are replayed under go test -race, D2 candidates by a native stress run with yields injected at every lock operation.",
     "technique": "symbolic execution of go/ssa + SMT (z3), lock-discipline monitor, bounded schedule exploration with linearizability oracle, native replay",
@@ -37,7 +37,7 @@ META["C05"] = {
 }
 
 META["C06"] = {
-    "text": "Algebraic laws of the real equal()/comparison/in/switch code over ordered pairs of 12 value classes with symbolic payloads: symmetry, != is the negation, in and switch agree with ==, same-type equality is Go's ==, int/float equality iff <= and >=, nil equals only nil, string/number equality iff the string is a decimal numeral for that number (pools), structural container equality; each decided by z3 over all payloads. Formatting-based comparisons are exercised on a concrete magnitude pool.",
+    "text": "Algebraic laws of the real equal()/comparison/in/switch code over ordered pairs of 12 value classes with symbolic payloads: symmetry, != is the negation, in and switch agree with ==, same-type equality is Go's ==, int/float equality iff <= and >=, nil equals only nil, string/number equality iff the string is a decimal numeral for that number (pools), structural container equality; each decided by z3 over all payloads. Formatting-based comparisons are exercised on a concrete magnitude pool. Added: views of one backing array (prefixes, windows, the same container twice), every non-decimal spelling strconv accepts as a non-numeral, integer numerals at and beyond the int64 edge.",
     "design_ref": "DESIGN.md §5 C06",
     "note": "Parsing/formatting of symbolic strings and numbers is not encoded (paths ending there are counted as unsupported, never as passed).",
     "technique": "symbolic execution of go/ssa + SMT (z3), algebraic-law harness, native replay",
@@ -51,49 +51,49 @@ META["C19"] = {
 }
 
 META["C10"] = {
-    "text": "Differential symbolic execution of the real container code (invokeItemExpr, invokeSliceExpr, invokeLenExpr, invokeIncludeExpr, invokeLetItem*, invokeLetMemberExpr, getMapIndex, runDeleteStmt, append through +, element conversion) against a mirror Go value: symbolic indices and slice bounds of every numeric class decide in-range/out-of-range by the solver; in-range operations must touch exactly the addressed element, failures must leave the container unchanged, slicing must share storage, typed containers and struct fields must keep their declared type.",
+    "text": "Differential symbolic execution of the real container code (invokeItemExpr, invokeSliceExpr, invokeLenExpr, invokeIncludeExpr, invokeLetItem*, invokeLetMemberExpr, getMapIndex, runDeleteStmt, append through +, element conversion) against a mirror Go value: symbolic indices and slice bounds of every numeric class decide in-range/out-of-range by the solver; in-range operations must touch exactly the addressed element, failures must leave the container unchanged, slicing must share storage, typed containers and struct fields must keep their declared type. Added: a read yields the value at the time of the read - 18 receiving forms (variable, parameter, literal, defer / go argument, result, swap, operand ...) x 8 containers with symbolic old and new payloads, from source text; `x + y` on overlapping views of one array against Go's append.",
     "design_ref": "DESIGN.md §5 C10",
     "note": "Container sizes <= 3; index values unbounded (symbolic). Trusted: go/ssa, symgo semantics and reflect model (validated on the repo's scripts in every run), z3.",
     "technique": "symbolic execution of go/ssa + SMT (z3), differential against mirror Go values, native replay",
 }
 
 META["C07"] = {
-    "text": "Every operand of every call form (Go/script callee, fixed/variadic, 0..6 parameters, plain/spread, direct/anonymous/go/defer), literal, operator, index/slice expression, return list and multi-assignment is a logging probe, one of which may fail: symbolic execution of the real call machinery (callExpr, makeCallArgs, anonCallExpr, runDeferStmt, the operator and literal functions) must log every tag at most once, in increasing order, completely on success and exactly up to the failing operand otherwise; && || ?: ?? must evaluate only the operands the result depends on.",
+    "text": "Every operand of every call form (Go/script callee, fixed/variadic, 0..6 parameters, plain/spread, direct/anonymous/go/defer), literal, operator, index/slice expression, return list and multi-assignment is a logging probe, one of which may fail: symbolic execution of the real call machinery (callExpr, makeCallArgs, anonCallExpr, runDeferStmt, the operator and literal functions) must log every tag at most once, in increasing order, completely on success and exactly up to the failing operand otherwise; && || ?: ?? must evaluate only the operands the result depends on. Added: index operands of 10 assignment-target shapes; calls that are accepted although their argument count does not fit; 6 callee outcomes (incl. a recovered Go panic) x 8 arities x 4 positions: operands and body exactly once.",
     "design_ref": "DESIGN.md §5 C07",
     "note": "Forms are enumerated by forking (no symbolic payload is needed); the deciding step is exhaustive bounded exploration of the real code under the engine's reflect model.",
     "technique": "symbolic execution of go/ssa (bounded exhaustive exploration), probe-trace oracle, native replay",
 }
 
 META["C08"] = {
-    "text": "Differential against a reference control-flow interpreter over abstract programs: the real runStmtsStmt/runIfStmt/runSwitchStmt/loop functions/runTryStmt/function call boundary are executed on every statement skeleton within the bound, with every leaf a probed statement of chosen outcome and every condition a probed call with a chosen truth sequence; probe trace, error status and returned value must equal the reference (first truthy branch, first equal case, body while condition, break/continue consumed by the innermost loop with the post expression after continue, return leaving the invocation).",
+    "text": "Differential against a reference control-flow interpreter over abstract programs: the real runStmtsStmt/runIfStmt/runSwitchStmt/loop functions/runTryStmt/function call boundary are executed on every statement skeleton within the bound, with every leaf a probed statement of chosen outcome and every condition a probed call with a chosen truth sequence; probe trace, error status and returned value must equal the reference (first truthy branch, first equal case, body while condition, break/continue consumed by the innermost loop with the post expression after continue, return leaving the invocation). Added: the truth class of the condition value (22 classes with symbolic payloads x 3 provenances) in every condition position; for-in over slices of symbolic elements in index order and over maps in every key order (every entry once, with its value), with the body leaving at visit j by every outcome; leaves inside blocks with a scope of their own re-bind the condition probe, so that a leaked scope shows in the trace.",
     "design_ref": "DESIGN.md §5 C08",
     "note": "Skeletons/outcomes/truth values are enumerated by forking. Known finding (recorded, the repo's tests assert it): try/catch catches break/continue/return leaving its try block.",
     "technique": "symbolic execution of go/ssa (bounded exhaustive exploration), differential against a reference interpreter, unwinding assertions, native replay",
 }
 
 META["C09"] = {
-    "text": "Same machinery as C08 with the try/defer oracle: catch runs iff the try body failed, finally after a body that succeeded or whose error was caught, nothing after an uncaught error except the deferred calls of the invocations being left, every deferred call exactly once in LIFO order, the invocation's result unchanged, a deferred error surfacing iff the body did not fail.",
+    "text": "Same machinery as C08 with the try/defer oracle: catch runs iff the try body failed, finally after a body that succeeded or whose error was caught, nothing after an uncaught error except the deferred calls of the invocations being left, every deferred call exactly once in LIFO order, the invocation's result unchanged, a deferred error surfacing iff the body did not fail. Added: 21 shapes of deferred call (arities 0..6, variadic, spread over fixed parameters, Go functions, literals, module members) x 3 exits with symbolic arguments re-bound after the defer statement; `throw v` for 15 thrown values in 4 positions.",
     "design_ref": "DESIGN.md §5 C09",
     "note": "As C08. Known finding shared with C08 (control signals through try).",
     "technique": "symbolic execution of go/ssa (bounded exhaustive exploration), differential against a reference interpreter, native replay",
 }
 
 META["C20"] = {
-    "text": "Relational step lemma: each of 51 operation templates is executed twice by the real interpreter in fresh, equal environments - once with the operand as a literal, once with the same value (same symbolic payload) delivered through a provenance chain of real AST over real containers (variable, []interface{} element, map entry, struct field, script call, Go call typed interface{}, parentheses, ?:, ??) - and error-or-success, result value and dynamic type must coincide for every value class; payload equality is decided by the solver.",
+    "text": "Relational step lemma: each of 51 operation templates is executed twice by the real interpreter in fresh, equal environments - once with the operand as a literal, once with the same value (same symbolic payload) delivered through a provenance chain of real AST over real containers (variable, []interface{} element, map entry, struct field, script call, Go call typed interface{}, parentheses, ?:, ??) - and error-or-success, result value and dynamic type must coincide for every value class; payload equality is decided by the solver. Added: nil in switch subject / case, == and != nil, the global flag and the name of delete, make(type T, x), the channel of a send, the callee of a go statement.",
     "design_ref": "DESIGN.md §5 C20",
     "note": "Templates, classes and hops are enumerated by forking; payloads are symbolic. Trusted: go/ssa, symgo semantics and reflect model (Kind Interface values, addressability), z3.",
     "technique": "symbolic execution of go/ssa + SMT (z3), relational (two-run) step lemma, native replay",
 }
 
 META["C01"] = {
-    "text": "Bounded inductive invariant over every AST node kind (table derived from go/types at check time): the real RunContext/runSingleStmt/invokeExpr/invokeLetExpr/invokeOperator code, executed symbolically with Debug=false on a node whose children are arbitrary outcomes (any value class of the universe through plain or interface-wrapped provenance with symbolic payloads, an error, or a control signal), returns without a panic escaping on the calling goroutine or on one started by `go`, and leaves only well-formed bindings; plus totality of the real ParseSrc on all sources of <= 2|3 symbolic runes.",
+    "text": "Bounded inductive invariant over every AST node kind (table derived from go/types at check time): the real RunContext/runSingleStmt/invokeExpr/invokeLetExpr/invokeOperator code, executed symbolically with Debug=false on a node whose children are arbitrary outcomes (any value class of the universe through plain or interface-wrapped provenance with symbolic payloads, an error, or a control signal), returns without a panic escaping on the calling goroutine or on one started by `go`, and leaves only well-formed bindings; plus totality of the real ParseSrc on all sources of <= 2|3 symbolic runes. Added: seven families of source-text programs in which a child changes the container its parent is working on (entries deleted from a map while a for-in visits it, in every key order), and assignment targets whose container is an arbitrary value.",
     "design_ref": "DESIGN.md §5 C01",
     "note": "One step from arbitrary well-formed children + closure of the universe covers programs of every depth; value classes, node kinds and list lengths are enumerated by forking, payloads and indices are solver-decided. Trusted: go/ssa, symgo semantics, its reflect model incl. the panics of every reflect entry point (validated on the repo's scripts in every run).",
     "technique": "symbolic execution of go/ssa + SMT (z3), per-node-kind inductive step lemma, native replay",
 }
 
 META["C14"] = {
-    "text": "Frame (non-interference) lemma decided per step: in every instance of the C01 step lemma the tree (built, then frozen) and every object that existed after package initialisation (oneLiteral, int64Cache, nilValue, env.Packages, parser tables) are under a write barrier during RunContext; any Store/MapUpdate/delete/in-place append/reflect Set into them is a violation naming the field. Because every node kind runs with arbitrary children this is an inductive step: no evaluation writes the tree or process-wide state, hence repeated and concurrent runs of one tree on separate environments give their solo results.",
+    "text": "Frame (non-interference) lemma decided per step: in every instance of the C01 step lemma the tree (built, then frozen) and every object that existed after package initialisation (oneLiteral, int64Cache, nilValue, env.Packages, parser tables) are under a write barrier during RunContext; any Store/MapUpdate/delete/in-place append/reflect Set into them is a violation naming the field. Because every node kind runs with arbitrary children this is an inductive step: no evaluation writes the tree or process-wide state, hence repeated and concurrent runs of one tree on separate environments give their solo results. Added (import harness): Set and member assignment on imported scopes.",
     "design_ref": "DESIGN.md §5 C14",
     "note": "The 'all goroutine interleavings with the race detector' quantifier is discharged by this frame argument, not by exploring schedules (not applicable to the technique). F2: nothing the step hands back (value, bindings) aliases process-wide state. F3: import gives every importer its own copy of the package table. F4: the only nondeterministic primitive a goroutine-free step reaches is map iteration. Native replay compares a structural dump of the tree before and after the run, stores through every alias handed back, and re-runs the node in an equal fresh environment.",
     "technique": "symbolic execution of go/ssa with a write-barrier monitor, per-node-kind frame lemma, native replay",
@@ -114,28 +114,28 @@ META["C02"] = {
 }
 
 META["C16"] = {
-    "text": "The interpreter's channel code (make(chan), send/receive expressions with element conversion, the two-value receive statement, for-in over a channel, close with panic capture, go with argument evaluation) is executed on the engine's model of Go's channel semantics: FIFO and conversion with symbolic values, closed/drained behaviour, errors instead of crashes for send-on-closed and double close; producer -> [relay ->] consumer pipelines are explored under every schedule at channel-operation granularity within a context-switch bound and must deliver every item once, in order, and terminate.",
+    "text": "The interpreter's channel code (make(chan), send/receive expressions with element conversion, the two-value receive statement, for-in over a channel, close with panic capture, go with argument evaluation) is executed on the engine's model of Go's channel semantics: FIFO and conversion with symbolic values, closed/drained behaviour, errors instead of crashes for send-on-closed and double close; producer -> [relay ->] consumer pipelines are explored under every schedule at channel-operation granularity within a context-switch bound and must deliver every item once, in order, and terminate. Added: receivers already blocked when the producer sends or closes (4 receive forms x capacities 0/1/4), every go call shape followed by other calls before the goroutine's value is read (argument storage must not be reused).",
     "design_ref": "DESIGN.md §5 C16",
     "note": "'All schedules the runtime produces with varying GOMAXPROCS' is not applicable (runtime not encoded); schedules are explored on the channel model. Payload equalities are solver-decided; schedules are enumerated by forking.",
     "technique": "symbolic execution of go/ssa with a channel/goroutine model, bounded schedule exploration, unwinding assertions, native replay",
 }
 
 META["C18"] = {
-    "text": "Function-level check of the real main package with the OS stubbed: parseFlags, setupEnv and runNonInteractive are executed by the engine for every script of a pool x both ways of supplying it x trailing arguments; the return code must be 0 iff vm.Execute on the same source in an equally prepared environment succeeds, 4 on a parse or run error, 2 when the file cannot be read, and the recorded standard output must be the script's own output followed by exactly one diagnostic line iff the code is non-zero. Seven runs of the real built binary serve as process-level witnesses.",
+    "text": "Function-level check of the real main package with the OS stubbed: parseFlags, setupEnv and runNonInteractive are executed by the engine for every script of a pool x both ways of supplying it x trailing arguments; the return code must be 0 iff vm.Execute on the same source in an equally prepared environment succeeds, 4 on a parse or run error, 2 when the file cannot be read, and the recorded standard output must be the script's own output followed by exactly one diagnostic line iff the code is non-zero. Seven runs of the real built binary serve as process-level witnesses. Added: scripts using the builtins that look at the script's own environment (defined, load).",
     "design_ref": "DESIGN.md §5 C18",
     "note": "Exit status and stdout of the process are observed only by the witness runs; os.Exit, file system and pipes are stubs in the engine. Scripts are enumerated; no solver variable is involved.",
     "technique": "symbolic execution of go/ssa (bounded exhaustive exploration) against the library verdict, process-level witness runs",
 }
 
 META["C03"] = {
-    "text": "Lexical part: the real Scanner.Scan on every operator spelling of a reference token table followed by an arbitrary rune yields the longest-match token, literal and consumed length (solver over the rune). Literals: symbolic decimal / hexadecimal / binary digit strings run through the real scanner, the grammar's number action and the real strconv.ParseInt (interpreted from its SSA) and must denote exactly the reference value (int64), the int64 edge is accepted iff representable; quoted strings with symbolic contents and escapes denote the reference unescaping, raw strings are verbatim. Precedence: for every pair (thorough: triple) of binary operators, and the ternary shapes, the written expression and its fully parenthesised spelling (reference precedence climbing over the property's table) are parsed by the real generated parser in 5 statement contexts and must give the same tree modulo parentheses and positions.",
+    "text": "Lexical part: the real Scanner.Scan on every operator spelling of a reference token table followed by an arbitrary rune yields the longest-match token, literal and consumed length (solver over the rune). Literals: symbolic decimal / hexadecimal / binary digit strings run through the real scanner, the grammar's number action and the real strconv.ParseInt (interpreted from its SSA) and must denote exactly the reference value (int64), the int64 edge is accepted iff representable; quoted strings with symbolic contents and escapes denote the reference unescaping, raw strings are verbatim. Precedence: for every pair (thorough: triple) of binary operators, and the ternary shapes, the written expression and its fully parenthesised spelling (reference precedence climbing over the property's table) are parsed by the real generated parser in 5 statement contexts and must give the same tree modulo parentheses and positions. Added: negated literals in every base and the most negative int64 in every base.",
     "design_ref": "DESIGN.md §5 C03",
     "note": "Known finding (recorded): `in` is declared right-associative in the grammar (a in b in c parses as a in (b in c)); goyacc is not available to regenerate parser.go. Operator sequences are enumerated by forking.",
     "technique": "symbolic execution of go/ssa + SMT (z3), differential of the real parser against a reference precedence climber and reference literal readers, native replay",
 }
 
 META["C11"] = {
-    "text": "Conversion lemma: the real convertReflectValueToType on symbolic int64/float64 sources (plain and interface-wrapped) for every numeric target type must give exactly the target type and Go's own conversion of the payload (solver-decided), and on a table of non-numeric pairs must convert exactly when Go does (element-wise for slices and maps, zero value for nil). Call lemma: host functions recording their arguments are called through the real call machinery in fixed/variadic x plain/spread shapes and must receive exactly the supplied arguments converted as above, and all results come back. Identity, member and method access on Go values, and script functions converted to Go func types (arguments in, result converted out, error surfacing) are checked on a pool of Go types.",
+    "text": "Conversion lemma: the real convertReflectValueToType on symbolic int64/float64 sources (plain and interface-wrapped) for every numeric target type must give exactly the target type and Go's own conversion of the payload (solver-decided), and on a table of non-numeric pairs must convert exactly when Go does (element-wise for slices and maps, zero value for nil). Call lemma: host functions recording their arguments are called through the real call machinery in fixed/variadic x plain/spread shapes and must receive exactly the supplied arguments converted as above, and all results come back. Identity, member and method access on Go values, and script functions converted to Go func types (arguments in, result converted out, error surfacing) are checked on a pool of Go types. Added: array parameter types, pointer- and value-receiver methods on pointers to named slices / integers, named maps and through embedded structs, variadic script functions as callbacks.",
     "design_ref": "DESIGN.md §5 C11",
     "note": "The 'all Go signatures' quantifier is bounded to the pool; payloads are symbolic. Trusted: go/ssa, symgo reflect model (Convert, Call, MakeFunc, method sets).",
     "technique": "symbolic execution of go/ssa + SMT (z3), differential against Go's own conversions, native replay",
